@@ -5,6 +5,7 @@ package c17
 import (
 	"encoding/json"
 	"fmt"
+	"github.com/google/martian/v3"
 	"io"
 	"net/http"
 	"net/http/httptest"
@@ -30,12 +31,28 @@ func TestMain(m *testing.M) { kit.Main(m, "C17") }
 type Op struct {
 	Kind string `json:"k"`
 	ID   int    `json:"id,omitempty"`
+	// Status of the response recorded by R / SR (0 = 200). Bad: the message
+	// cannot be converted (R: Content-Encoding gzip on a body that is not gzip;
+	// Q: a form body with an invalid escape): the call fails and leaves the log
+	// as it was.
+	Status int  `json:"status,omitempty"`
+	Bad    bool `json:"bad,omitempty"`
 }
+
+// Kinds SQ / SR: the same exchange goes through Logger.ModifyRequest /
+// ModifyResponse with a martian context on which SkipRoundTrip() was called (an
+// exchange the proxy answers itself); its entry ID is the context's.
 
 // Case is an operation history, optionally driven through the HTTP handlers.
 type Case struct {
 	Ops      []Op `json:"ops"`
 	Handlers bool `json:"handlers,omitempty"`
+}
+
+type skippedEx struct {
+	req    *http.Request
+	ctxID  string
+	remove func()
 }
 
 type mentry struct {
@@ -61,6 +78,29 @@ func mkRes(req *http.Request, marker string) *http.Response {
 		Body:    http.NoBody,
 		Request: req,
 	}
+}
+
+func mkResOp(req *http.Request, marker string, op Op) *http.Response {
+	res := mkRes(req, marker)
+	if op.Status != 0 {
+		res.StatusCode = op.Status
+	}
+	if op.Bad {
+		res.StatusCode = 200 // (bodies of other statuses are not necessarily looked at)
+		res.Header.Set("Content-Encoding", "gzip")
+		res.Body = io.NopCloser(strings.NewReader("this is not gzip"))
+		res.ContentLength = 16
+	}
+	return res
+}
+
+func mkBadReq(id, marker string) *http.Request {
+	req, err := http.NewRequest("POST", "http://example.com/"+id+"?m="+marker, strings.NewReader("a=%zz"))
+	if err != nil {
+		panic(err)
+	}
+	req.Header.Set("Content-Type", "application/x-www-form-urlencoded")
+	return req
 }
 
 func entryMarker(e *har.Entry) (reqMarker, resMarker string, hasRes bool) {
@@ -138,6 +178,12 @@ func runSequential(c Case) kit.Verdict {
 	exportH, resetH := har.NewExportHandler(l), har.NewResetHandler(l)
 	var model []mentry
 	reqs := map[string]*http.Request{}
+	skipped := map[int]*skippedEx{}
+	defer func() {
+		for _, ex := range skipped {
+			ex.remove()
+		}
+	}()
 	for step, op := range c.Ops {
 		id := fmt.Sprintf("id%d", op.ID)
 		switch op.Kind {
@@ -145,7 +191,16 @@ func runSequential(c Case) kit.Verdict {
 			serial++
 			marker := fmt.Sprintf("m%d", serial)
 			req := mkReq(id, marker)
+			if op.Bad {
+				req = mkBadReq(id, marker)
+			}
 			err := l.RecordRequest(id, req)
+			if op.Bad {
+				if err == nil {
+					return kit.Failf("C17/sequential/unconvertible-request-accepted", "step %d: RecordRequest(%s) of a form body with an invalid escape returned nil", step, id)
+				}
+				break // the log is as it was
+			}
 			dup := false
 			for _, e := range model {
 				if e.id == id {
@@ -169,11 +224,57 @@ func runSequential(c Case) kit.Verdict {
 			if req == nil {
 				req = mkReq(id, "orphan")
 			}
-			if err := l.RecordResponse(id, mkRes(req, marker)); err != nil {
-				return kit.Failf("C17/sequential/record-response-error", "step %d: RecordResponse(%s) = %v", step, id, err)
+			err := l.RecordResponse(id, mkResOp(req, marker, op))
+			known := false
+			for _, e := range model {
+				known = known || e.id == id
+			}
+			if op.Bad && !known {
+				break // a response for an ID the log does not hold is ignored unseen
+			}
+			if op.Bad {
+				if err == nil {
+					return kit.Failf("C17/sequential/unconvertible-response-accepted", "step %d: RecordResponse(%s) of a body that is not what its Content-Encoding says returned nil", step, id)
+				}
+				break // the log is as it was: the entry, if any, is still pending
+			}
+			if err != nil {
+				return kit.Failf("C17/sequential/record-response-error", "step %d: RecordResponse(%s) (status %d) = %v", step, id, op.Status, err)
 			}
 			for i := range model {
 				if model[i].id == id {
+					model[i].resp = marker
+				}
+			}
+		case "SQ":
+			serial++
+			marker := fmt.Sprintf("m%d", serial)
+			req := mkReq(id, marker)
+			ctx, remove, err := martian.TestContext(req, nil, nil)
+			if err != nil {
+				return kit.Failf("C17/harness/context", "%v", err)
+			}
+			ctx.SkipRoundTrip()
+			if old := skipped[op.ID]; old != nil {
+				old.remove()
+			}
+			skipped[op.ID] = &skippedEx{req: req, ctxID: ctx.ID(), remove: remove}
+			if err := l.ModifyRequest(req); err != nil {
+				return kit.Failf("C17/sequential/modify-request-error", "step %d: ModifyRequest = %v", step, err)
+			}
+			model = append(model, mentry{id: ctx.ID(), marker: marker})
+		case "SR":
+			ex := skipped[op.ID]
+			if ex == nil {
+				break
+			}
+			serial++
+			marker := fmt.Sprintf("r%d", serial)
+			if err := l.ModifyResponse(mkResOp(ex.req, marker, Op{Status: op.Status})); err != nil {
+				return kit.Failf("C17/sequential/modify-response-error", "step %d: ModifyResponse = %v", step, err)
+			}
+			for i := range model {
+				if model[i].id == ex.ctxID {
 					model[i].resp = marker
 				}
 			}
@@ -296,18 +397,33 @@ func classesSeq(c Case) []string {
 	if c.Handlers {
 		cl = append(cl, "through-handlers")
 	}
+	flags := map[string]bool{}
+	for _, op := range c.Ops {
+		if op.Bad {
+			flags["unconvertible-message"] = true
+		}
+		if op.Status >= 100 && op.Status < 200 {
+			flags["1xx-response"] = true
+		}
+		if op.Kind == "SQ" || op.Kind == "SR" {
+			flags["exchange-with-skipped-round-trip-through-the-modifier"] = true
+		}
+	}
+	for k := range flags {
+		cl = append(cl, k)
+	}
 	return cl
 }
 
 var seqRule = "histories of RecordRequest/RecordResponse/Export/ExportAndReset/Reset compared step by step with a list model; non-trivial = an ExportAndReset while both pending and completed entries exist, or re-use of an ID after it left the log"
 
 var propExhaustive = &kit.Prop[Case]{
-	ID: "C17", Name: "exhaustive", Rule: "ALL " + seqRule + "; sequences of fixed length L over 3 IDs (9 symbols), every prefix checked",
+	ID: "C17", Name: "exhaustive", Rule: "ALL " + seqRule + "; sequences of fixed length L over 3 IDs (11 symbols incl. an unconvertible response and a 101), every prefix checked",
 	Run: runSequential, NonTrivial: nontrivialSeq, Classes: classesSeq,
 }
 
 var propMachine = &kit.Prop[Case]{
-	ID: "C17", Name: "machine", Rule: "rapid-drawn " + seqRule + "; up to 80 ops over 8 IDs, directly or through the export/reset HTTP handlers",
+	ID: "C17", Name: "machine", Rule: "rapid-drawn " + seqRule + "; up to 80 ops over 8 IDs (response statuses incl. 1xx, unconvertible requests and responses, exchanges with a skipped round trip through ModifyRequest/ModifyResponse), directly or through the export/reset HTTP handlers",
 	Run: runSequential, NonTrivial: nontrivialSeq, Classes: classesSeq,
 	Gates: map[string]float64{"nontrivial": 0.3, "through-handlers": 0.2},
 	Gen: func(t *rapid.T) Case {
@@ -315,10 +431,16 @@ var propMachine = &kit.Prop[Case]{
 		ids := rapid.IntRange(1, 8).Draw(t, "ids")
 		c := Case{Handlers: rapid.Bool().Draw(t, "handlers")}
 		for i := 0; i < n; i++ {
-			k := rapid.SampledFrom([]string{"Q", "Q", "Q", "R", "R", "R", "E", "X", "X", "Z"}).Draw(t, "kind")
+			k := rapid.SampledFrom([]string{"Q", "Q", "Q", "R", "R", "R", "E", "X", "X", "Z", "SQ", "SR"}).Draw(t, "kind")
 			op := Op{Kind: k}
-			if k == "Q" || k == "R" {
+			if k == "Q" || k == "R" || k == "SQ" || k == "SR" {
 				op.ID = rapid.IntRange(0, ids-1).Draw(t, "id")
+			}
+			if k == "R" || k == "SR" {
+				op.Status = rapid.SampledFrom([]int{0, 0, 0, 101, 100, 204, 304, 404, 500}).Draw(t, "status")
+			}
+			if (k == "Q" || k == "R") && rapid.IntRange(0, 7).Draw(t, "bad") == 0 {
+				op.Bad = true
 			}
 			c.Ops = append(c.Ops, op)
 		}
@@ -330,8 +452,9 @@ func TestExhaustive(t *testing.T) {
 	if kit.Race() {
 		t.Skip("sequential enumeration adds nothing under the race detector")
 	}
-	L := kit.N(5, 7)
-	alphabet := []Op{{"Q", 0}, {"Q", 1}, {"Q", 2}, {"R", 0}, {"R", 1}, {"R", 2}, {"E", 0}, {"X", 0}, {"Z", 0}}
+	L := kit.N(5, 6)
+	alphabet := []Op{{Kind: "Q", ID: 0}, {Kind: "Q", ID: 1}, {Kind: "Q", ID: 2}, {Kind: "R", ID: 0}, {Kind: "R", ID: 1}, {Kind: "R", ID: 2}, {Kind: "E"}, {Kind: "X"}, {Kind: "Z"},
+		{Kind: "R", ID: 0, Bad: true}, {Kind: "R", ID: 1, Status: 101}}
 	propExhaustive.Enumerate(t, func(yield func(Case) bool) {
 		idx := make([]int, L)
 		for {
